@@ -214,6 +214,40 @@ theorem c07p_duplicate_modifier_piece (T A rest : List Tok) (cs : CharSpec) (e :
   rw [hrun]
   exact (c07p_indep_fields (Indep.ingredientTail ..) _).1
 
+/-- **modifiers on a cookware item** (`#@x{}`, `#&&x{}`; COMPONENT_MODIFIERS): plain modifier tokens `ms`, a
+    non-blank name without alias separator, blank braces.  Exactly one `duplicate-modifier` per repeated
+    token, then `cookware-recipe-modifier` labelled with the first `@` among the modifiers iff there is one,
+    then the item. -/
+theorem c07p_cookware_modifiers_piece (T A rest : List Tok) (cs : CharSpec) (e : Ext) (tm : Tok)
+    (ms nameT : List Tok) (tob : Tok) (Q : List Tok) (tcb : Tok)
+    (hT : T = A ++ (c07p_comp tm ms nameT tob Q tcb ++ rest)) (hw : WF T)
+    (sh : PlShape e .hash tm ms nameT tob Q tcb rest) (hs : SimpleMods ms)
+    (hQ : ∀ t ∈ Q, isPadK t = true)
+    (ha : e.has Gen.EXT_COMPONENT_ALIAS = false ∨ ∀ t ∈ nameT, t.kind ≠ .or)
+    (hname : (buildText (offAt T (A.length + 1 + ms.length)) nameT).isTextEmpty cs = false) :
+    PlPieceAt (α := α) T cs e A ⟨c07p_comp tm ms nameT tob Q tcb, fun evs =>
+      evs = List.replicate (foldMods Modifiers.empty ms).2
+          (.error ⟨.error, .parse, "duplicate-modifier", [tokensSpan ms]⟩) ++ recipeModEvs ms ++
+        [.cookware ⟨⟨simpleFlags ms (offAt T (A.length + 1)),
+          buildText (offAt T (A.length + 1 + ms.length)) nameT, none, none, none⟩,
+        ⟨offAt T A.length, offAt T (A.length + (c07p_comp tm ms nameT tob Q tcb).length)⟩⟩]⟩ := by
+  apply c07p_piece_of_cookware T A _ rest cs e hT hw tm _ rfl sh.hk
+  intro s h1 h2 h3 h4 h5
+  subst h1 h2 h3
+  have hrun := c07p_cookware_run s A tm ms nameT tob Q tcb rest sh hT h5
+  have hbody := c07p_body_qty_none nameT tob Q tcb hQ
+  have ht := cookwareTail_noqty (α := α) (offAt s.toks A.length)
+    (offAt s.toks (A.length + (c07p_comp tm ms nameT tob Q tcb).length))
+    (offAt s.toks (A.length + 1)) (offAt s.toks (A.length + 1 + ms.length)) ms (c07p_body nameT tob Q tcb) none
+    ({ s with cur := A.length + (c07p_comp tm ms nameT tob Q tcb).length } : BP α) [] _ none
+    (parseAlias_quiet' "cookware" nameT _ _ ha) hname hbody hs
+  unfold Sat at ht
+  rw [← hrun] at ht
+  obtain ⟨hpu, hr⟩ := ht
+  refine ⟨_, _, hr, hpu.cast (by simp [dupEvs, dupModEv]), ?_, rfl⟩
+  rw [hrun]
+  exact (c07p_indep_fields (Indep.cookwareTail ..) _).1
+
 /-- the tail of an ingredient without quantity whose name text is blank -/
 theorem c07p_ingredientTail_noqty_blank (start stop modPos nameOffset : Nat) (mtoks : List Tok) (body : Body)
     (note : Option Text) (s : BP α) (la : List (Ev α)) (nm : Text) (al : Option Text)
